@@ -473,6 +473,15 @@ func normAtom(t *Term, nilness func(*Term) int) Atom {
 			if cx, ok := intConst(x); ok && cx == 0 && y.Op == "call" && y.Name == "(*math/big.Int).Cmp" {
 				return Atom{Key: "BLt(" + y.Args[1].Key() + ", " + y.Args[0].Key() + ")", Pol: p}
 			}
+			// the key of a range over a slice is never negative: rk(s) < c (c <= 0) never holds
+			if (x.Op == "rk" || (x.Op == "old" && len(x.Args) == 1 && x.Args[0].Op == "rk")) && !rangeKeyMayBeNegative(x) {
+				if cy, ok := intConst(y); ok && cy <= 0 {
+					if p {
+						return Atom{Key: "true", Pol: true, Const: -1}
+					}
+					return Atom{Key: "true", Pol: true, Const: 1}
+				}
+			}
 			// len(x) < 1  == Empty ; 0 < len(x) == !Empty
 			if isLen(x) {
 				if cy, ok := intConst(y); ok && cy == 1 {
@@ -720,4 +729,25 @@ func (t *Term) addrVars() []int {
 	}
 	t.av, t.avDone = out, true
 	return out
+}
+
+// rangeKeyMayBeNegative: the range key term belongs to a map with signed keys
+// (the keys of slices, arrays and strings are indices). Without type
+// information in the term, everything whose operand is rendered as a map is
+// excluded.
+func rangeKeyMayBeNegative(rk *Term) bool {
+	for rk.Op == "old" {
+		rk = rk.Args[0]
+	}
+	if len(rk.Args) == 0 {
+		return true
+	}
+	x := rk.Args[0]
+	switch x.Op {
+	case "maplit", "mapset", "mapdel":
+		return true
+	case "call":
+		return x.Name == "make" && len(x.Args) > 0 && strings.HasPrefix(x.Args[0].Name, "map[")
+	}
+	return false
 }
